@@ -72,6 +72,7 @@ type Spec struct {
 	Capture  bool     `json:"capture,omitempty"`
 	CapExpr  string   `json:"cap_expr,omitempty"`
 	Mutate   string   `json:"mutate,omitempty"` // statement run after the capture in the same iteration
+	CapForm  string   `json:"cap_form,omitempty"` // shape of the capturing closure: "" plain | selfrec | selfrec-if | mutual | nested (round 8)
 	Wrap     bool     `json:"wrap,omitempty"`   // f is a local of an enclosing function (calls itself through a free variable)
 	Helper   bool     `json:"helper,omitempty"` // a local is computed through a helper call
 	Dead     string   `json:"dead,omitempty"`   // a no-op prefix of the body that leaves dead code for optimizeFunc to remove
@@ -255,7 +256,39 @@ func genSpec(r *lib.RNG, form string) *Spec {
 		})
 		s.Dead = strings.ReplaceAll(s.Dead, "N", n)
 	}
+	// shape of the capturing closure (drawn last: the rest of the spec is what earlier rounds generated).
+	// A local function that refers to itself is the one local a closure captures BEFORE it is assigned; the
+	// frame a self tail call reuses still holds the previous iteration's cell for it.
+	if s.Capture && r.Chance(2, 3) {
+		s.CapForm = lib.Pick(r, capForms)
+	}
 	return s
+}
+
+var capForms = []string{"selfrec", "selfrec-if", "mutual", "nested"}
+
+// captureStmts: the statements that make this iteration's closure and keep it in the global cl. Called
+// later (capCall) it returns CapExpr as seen by this iteration, after going through its own name.
+func (s *Spec) captureStmts() []string {
+	e := s.CapExpr
+	switch s.CapForm {
+	case "selfrec":
+		return []string{"hh := func(k) { return k == 0 ? " + e + " : hh(k-1) }", "cl = append(cl, hh)"}
+	case "selfrec-if":
+		return []string{"hh := func(k) { if k == 0 { return " + e + " }; return hh(k-1) }", "cl = append(cl, hh)"}
+	case "mutual":
+		return []string{"hb := undefined", "ha := func(k) { return k == 0 ? " + e + " : hb(k-1) }", "hb = func(k) { return ha(k) }", "cl = append(cl, ha)"}
+	case "nested":
+		return []string{"hm := func() { return func(k) { return k == 0 ? " + e + " : hm()(k-1) } }", "cl = append(cl, hm())"}
+	}
+	return []string{"cl = append(cl, func() { return " + e + " })"}
+}
+
+func (s *Spec) capCall() string {
+	if s.CapForm == "" {
+		return "c()"
+	}
+	return "c(2)"
 }
 
 func ints2(ints []string, n string) []string {
@@ -341,7 +374,9 @@ func (s *Spec) prelude(loop bool) string {
 			}
 			fmt.Fprintf(&b, "\trec = append(rec, %s)\n", s.CapExpr)
 		} else {
-			fmt.Fprintf(&b, "\tcl = append(cl, func() { return %s })\n", s.CapExpr)
+			for _, st := range s.captureStmts() {
+				fmt.Fprintf(&b, "\t%s\n", st)
+			}
 			if s.Mutate != "" {
 				fmt.Fprintf(&b, "\t%s\n", s.Mutate)
 			}
@@ -461,7 +496,7 @@ func (s *Spec) recSource(depth int) string {
 		fmt.Fprintf(&b, "out := f(%s)\n", s.inits(depth, false))
 	}
 	if s.Capture {
-		b.WriteString("vals := []\nfor c in cl { vals = append(vals, c()) }\n")
+		b.WriteString("vals := []\nfor c in cl { vals = append(vals, " + s.capCall() + ") }\n")
 	}
 	return b.String()
 }
@@ -556,6 +591,11 @@ type run struct {
 	CErr   string
 	Comp   *lib.Compiled
 	FiGrew bool
+	// first activation at frame index e (e = 2: f defined at top level, e = 3: f inside a wrapper): the
+	// function that ran there first, and the max framesIndex until the frame index dropped below e again
+	FIns     [4]*byte
+	RecMaxFi [4]int
+	recEnded [4]bool
 }
 
 // timeouts: number of runs that hit the watchdog; after a few the remaining random cases are skipped
@@ -585,6 +625,18 @@ func runSourceT(src string, watchSelf bool, timeout time.Duration) *run {
 		}
 		if sp > r.MaxSp {
 			r.MaxSp = sp
+		}
+		for e := 2; e <= 3; e++ {
+			if r.FIns[e] == nil && fi == e && len(fn.Instructions) > 0 {
+				r.FIns[e] = &fn.Instructions[0]
+			}
+			if r.FIns[e] != nil && !r.recEnded[e] {
+				if fi < e {
+					r.recEnded[e] = true
+				} else if fi > r.RecMaxFi[e] {
+					r.RecMaxFi[e] = fi
+				}
+			}
 		}
 		if !watchSelf {
 			return
@@ -678,6 +730,7 @@ type caseInput struct {
 	Depth  int    `json:"depth"`
 	Source string `json:"source"`
 	Loop   string `json:"loop,omitempty"`
+	Clos   *closCase `json:"clos,omitempty"` // a program of the closure family (closures.go)
 }
 
 func mnemonic(op int) string {
@@ -750,6 +803,9 @@ func checkSpec(s *Spec, depths []int, deep int) {
 	bound := entry
 	if s.Helper {
 		bound++ // id(...) inside the prelude
+	}
+	if s.CapForm == "nested" && !s.Helper {
+		bound++ // hm() inside the prelude
 	}
 	var sp2 int
 	maxfi0 := -1
@@ -858,9 +914,15 @@ func checkSpec(s *Spec, depths []int, deep int) {
 				res.Violate(lib.Violation{Signature: "tail-form-base-case-state-differs-from-loop:" + s.Form, Stream: stream, Input: in,
 					Observed: "res = " + clip(got, 300), Expected: "res = " + clip(want, 300), Oracle: "mechanically derived loop"})
 			}
-			if rr.MaxFi > bound {
+			maxFi := rr.MaxFi
+			if s.CapForm != "" {
+				// the kept closures are called after the recursion and push frames of their own there:
+				// framesIndex is bounded for as long as the first activation of f lasts
+				maxFi = rr.RecMaxFi[entry]
+			}
+			if maxFi > bound {
 				res.Violate(lib.Violation{Signature: "tail-form-grows-frames:" + s.Form, Stream: stream, Input: in,
-					Observed: fmt.Sprintf("max framesIndex %d at depth %d", rr.MaxFi, d), Expected: fmt.Sprintf("<= %d at every depth", bound), Oracle: "VM probe (framesIndex at every dispatched instruction)"})
+					Observed: fmt.Sprintf("max framesIndex %d at depth %d", maxFi, d), Expected: fmt.Sprintf("<= %d at every depth", bound), Oracle: "VM probe (framesIndex at every dispatched instruction)"})
 			}
 			if d == 2 {
 				sp2 = rr.MaxSp
@@ -901,11 +963,15 @@ func checkSpec(s *Spec, depths []int, deep int) {
 						Observed: fmt.Sprintf("max framesIndex %d", rr.MaxFi), Expected: fmt.Sprintf(">= %d (f calls g)", entry+1), Oracle: "VM probe"})
 				}
 			} else {
+				maxFi := rr.MaxFi
+				if s.CapForm != "" {
+					maxFi = rr.RecMaxFi[entry] // without the frames of the kept closures called afterwards
+				}
 				if d == 0 {
-					maxfi0 = rr.MaxFi
-				} else if maxfi0 >= 0 && semanticallyNonTail[s.Form] && rr.MaxFi != maxfi0+d {
+					maxfi0 = maxFi
+				} else if maxfi0 >= 0 && semanticallyNonTail[s.Form] && maxFi != maxfi0+d {
 					res.Violate(lib.Violation{Signature: "nontail-self-call-does-not-push-one-frame-per-level:" + s.Form, Stream: stream, Input: in,
-						Observed: fmt.Sprintf("max framesIndex %d at depth %d (depth 0: %d)", rr.MaxFi, d, maxfi0), Expected: fmt.Sprintf("%d", maxfi0+d), Oracle: "VM probe: a self call that is not in tail position is never treated as one"})
+						Observed: fmt.Sprintf("max framesIndex %d at depth %d (depth 0: %d)", maxFi, d, maxfi0), Expected: fmt.Sprintf("%d", maxfi0+d), Oracle: "VM probe: a self call that is not in tail position is never treated as one"})
 				}
 			}
 		}
@@ -948,7 +1014,14 @@ func opsStr(xs []int) string {
 }
 
 func checkContext(s *Spec, rr *run, in caseInput) {
+	entry := 2
+	if s.Wrap {
+		entry = 3
+	}
 	for _, st := range rr.Sites {
+		if s.CapForm != "" && rr.FIns[entry] != nil && len(st.Insts) > 0 && &st.Insts[0] != rr.FIns[entry] {
+			continue // the self call of a self-recursive capturing closure, not one of f
+		}
 		next := append([]int{}, st.Next...)
 		res.Dist("after-call:" + s.Form + ":" + mnemonic(next[0]) + ";" + mnemonic(next[1]))
 		res.Count("context", fmt.Sprintf("%s|%d|%d|%v", s.Form, next[0], next[1], st.Reused > 0), true)
@@ -1257,9 +1330,15 @@ func main() {
 	if f.Thorough() {
 		closedDepths = append(closedDepths, 1000000)
 	}
+	if os.Getenv("C16_ONLY") == "closures" { // debugging aid: only the closure family
+		closureFamilies(f.Seed, f.Thorough())
+		res.Write(f.Out)
+		return
+	}
 	closedForms(closedDepths)
 	frameBoundary()
 	lastFrame([]int{3, 1000, 50000})
+	closureFamilies(f.Seed, f.Thorough())
 
 	rng := lib.NewRNG(f.Seed)
 	n := f.Scale(150, 1500)
@@ -1321,6 +1400,10 @@ func replay(path string) {
 			return
 		}
 		seen[in.Source] = true
+		if in.Clos != nil {
+			runClosCase(*in.Clos)
+			return
+		}
 		if in.Spec != nil {
 			ds := []int{0, 1, 2, in.Depth}
 			if isTailForm(in.Spec.Form) {
